@@ -212,7 +212,32 @@ type zzNet struct {
 
 // intact: the path from the root to n was never interrupted while the script ran.
 func (w *zzNet) intact(n *zzNode) bool {
-	return !w.lost[n.name] && (n.via == nil || !w.lost[n.via.name])
+	for x := n; x != nil; x = x.via {
+		if w.lost[x.name] {
+			return false
+		}
+	}
+	return true
+}
+
+// under reports whether n hangs (directly or through further relays) off the process called name.
+func (n *zzNode) under(name string) bool {
+	for x := n; x != nil; x = x.via {
+		if x.name == name {
+			return true
+		}
+	}
+	return false
+}
+
+// reachable: n and every relay between it and the root were started and never shut down on purpose.
+func (n *zzNode) reachable() bool {
+	for x := n; x != nil; x = x.via {
+		if x.stopped || !x.started {
+			return false
+		}
+	}
+	return true
 }
 
 func (w *zzNet) clock() string { return fmt.Sprintf("%.2fs", time.Since(w.epoch).Seconds()) }
@@ -354,7 +379,7 @@ func (w *zzNet) behind(name string) []*zzNode {
 		if n.keeper == nil {
 			continue
 		}
-		if n.name == name || (n.via != nil && n.via.name == name) {
+		if n.under(name) {
 			out = append(out, n)
 		}
 	}
@@ -496,11 +521,20 @@ func zzRunC17(r *sim.Run) {
 			}
 			w.nodes = append(w.nodes, relay)
 		}
+		// sometimes a second relay behind the first (reports and tasks cross two relays)
+		var relay2 *zzNode
+		if relay != nil && t.Bool("relay2", 1, 3) {
+			relay2 = &zzNode{name: "relay2", upAddr: "relay:9690", via: relay, poolAddr: "relay2:9690", startAt: time.Duration(t.Choose("start.at", 8)) * zzGrid}
+			w.nodes = append(w.nodes, relay2)
+		}
 		nCol := 1 + t.Choose("ncollectors", 4)
 		for i := 0; i < nCol; i++ {
 			n := &zzNode{name: fmt.Sprintf("C%d", i), idx: i, upAddr: "root:9690", startAt: time.Duration(t.Choose("start.at", 8)) * zzGrid}
 			if relay != nil && t.Bool("behind-relay", 1, 2) {
 				n.upAddr, n.via = "relay:9690", relay
+				if relay2 != nil && t.Bool("behind-relay2", 1, 2) {
+					n.upAddr, n.via = "relay2:9690", relay2
+				}
 			}
 			if t.Bool("late", 1, 4) {
 				n.startAt += time.Duration(8+t.Choose("late.by", 40)) * zzGrid
@@ -723,6 +757,9 @@ func zzRunC17(r *sim.Run) {
 		}
 		if n.via != nil && n.keeper != nil && n.keeper.count("qualities|"+hex.EncodeToString(m.tasks[0].challenge[:])) > 0 {
 			r.Probe("task-through-relay")
+			if n.via.via != nil {
+				r.Probe("task-through-two-relays")
+			}
 		}
 		if n.keeper != nil && n.started && n.joinedAt > m.tasks[0].addedAt && n.joinedAt < m.tasks[0].removedAt &&
 			n.keeper.count("qualities|"+hex.EncodeToString(m.tasks[0].challenge[:])) > 0 {
@@ -871,7 +908,7 @@ func zzCheckRouting(r *sim.Run, w *zzNet, m *zzMinerScript, fresh, stalled *zzTa
 					// (with connection faults a collector legitimately gets the current task again after it reconnects)
 					r.Fail("C17/task-delivered-twice/qualities", "broadcast task %s reached collector %s %d times", tk.id.String()[:8], n.name, c)
 				}
-				if c == 0 && !w.faults && w.intact(n) && n.started && n.joinedAt < tk.removedAt-2*time.Second {
+				if c == 0 && !w.faults && w.intact(n) && n.started && n.joinedAt < tk.removedAt-5*time.Second {
 					r.Fail("C17/task-not-delivered/qualities", "broadcast task %s (current from %.2fs to %.2fs) never reached collector %s (up at %.2fs), although its path was intact all the time",
 						tk.id.String()[:8], tk.addedAt.Seconds(), tk.removedAt.Seconds(), n.name, n.joinedAt.Seconds())
 				}
@@ -908,7 +945,9 @@ func zzCheckRouting(r *sim.Run, w *zzNet, m *zzMinerScript, fresh, stalled *zzTa
 			}
 		}
 		for _, n := range w.all() {
-			if n.keeper == nil || n.stopped || !n.started || (n.via != nil && (n.via.stopped || !n.via.started)) {
+			if n.keeper == nil || !n.reachable() || n.joinedAt+10*time.Second > fresh.removedAt {
+				// (shut down on purpose, behind a relay that was, or up for less than ten seconds
+				// of the task's life: nothing is demanded)
 				continue
 			}
 			if !seen[n.keeper.sid()] {
